@@ -79,6 +79,7 @@ def generate(seed, tier):
     pool = ["ab", "ab", "xa", "ya", "b", "", "a!", "aü", "abcde", " a", "xy", "abc", "abcd"]
     if fmt == "delimited":
         pool.append("a\nb")  # a line break inside a cell
+        pool.append(" ")  # outside fixed-width data a blank is a character: the cell is not empty
     if fmt == "fixed":
         pool += ["   ", "a "]
     tables = {}
